@@ -234,7 +234,7 @@ def run_property(prop, spec, tier, seed, only=None):
         rnd = random.Random(seed)
         rnd.shuffle(hs)
         hs.sort(key=lambda h: -h.timeout)   # long ones first (stable sort keeps the shuffle inside ties)
-        meta = stage.codegen()
+        meta = stage.codegen(hs)
         if meta is None:
             log(stage.codegen_log[-6000:])
             log("[%s] harnesses do not compile against the current tree (harness out of date?) - inconclusive" % prop)
